@@ -398,11 +398,11 @@ Lemma helper_ok_fresh : forall g, helper_ok (fresh_helper g).
 Proof. intros. split; simpl; intros; try discriminate; auto. Qed.
 
 Lemma get_subprocess_spec : forall sched s s1 r n w,
-  Inv s -> get_subprocess true sched s = (s1, r, n, w) ->
+  Inv s -> get_subprocess true true sched s = (s1, r, n, w) ->
   Inv s1 /\ scripts s1 = scripts s /\ syspath s1 = syspath s /\
   weight s1 = (weight s + N.of_nat n)%N /\
   ((r = None /\ n = 0 /\ clean w = true /\ h_crashed (cur s1) = false) \/
-   (r = Some EInvalidEnv /\ n = 1 /\ clean w = false)).
+   (r = Some EInternal /\ n = 1 /\ clean w = false)).
 Proof.
   intros sched s s1 r n w HI H. unfold get_subprocess in H.
   destruct (h_crashed (cur s)) eqn:C; simpl in H.
@@ -454,8 +454,7 @@ Definition EvOK (s : st) (o : op) (e : ev) (s' : st) : Prop :=
   e_deaths e <= 1 /\
   weight s' = (weight s + N.of_nat (e_deaths e))%N /\
   (e_stale e = true -> e_out e = OExc EInternal /\ e_deaths e = 0 /\ e_hand e = false) /\
-  (e_deaths e = 1 -> e_stale e = false /\ clean (e_wire e) = false /\
-       ((e_hand e = false /\ e_out e = OExc EInternal) \/ (e_hand e = true /\ e_out e = OExc EInvalidEnv))) /\
+  (e_deaths e = 1 -> e_stale e = false /\ clean (e_wire e) = false /\ e_out e = OExc EInternal) /\
   (e_deaths e = 0 -> e_stale e = false ->
        (exists l, e_out e = OOk l) \/ e_out e = ONoScript \/ (e_out e = OExc EHelper /\ raised (e_wire e))) /\
   (e_stale e = false -> clean (e_wire e) = true -> e_out e = ONoScript \/ e_out e = canon_out o) /\
@@ -478,7 +477,7 @@ Proof.
 Qed.
 
 Lemma step_query : forall sched s id cs s' e,
-  Inv s -> step true sched s (OpQuery id cs) = (s', e) -> Inv s' /\ EvOK s (OpQuery id cs) e s'.
+  Inv s -> step true true sched s (OpQuery id cs) = (s', e) -> Inv s' /\ EvOK s (OpQuery id cs) e s'.
 Proof.
   intros sched s id cs s' e HI H. cbn [step] in H.
   destruct (find_script id (scripts s)) as [sc|] eqn:F.
@@ -532,7 +531,7 @@ Proof.
            intros; congruence.
         -- unfold EvOK; simpl. split; [lia|]. split; [unfold weight; simpl; rewrite EGh, C, H; simpl; lia|].
            split; [discriminate|].
-           split; [intros _; split; [reflexivity|]; split; [assumption|]; left; split; reflexivity|].
+           split; [intros _; split; [reflexivity|]; split; [assumption|reflexivity]|].
            split; [discriminate|]. split; [intros _ Cw; congruence|].
            intros; lia.
   - (* bound to a replaced helper: that one has crashed *)
@@ -565,22 +564,22 @@ Qed.
 Lemma EvOK_getsub_fail : forall s o s1 w,
   weight s1 = (weight s + N.of_nat 1)%N -> clean w = false ->
   (forall id cs, o <> OpQuery id cs) ->
-  EvOK s o (mkEv (OExc EInvalidEnv) 1 false true w) s1.
+  EvOK s o (mkEv (OExc EInternal) 1 false true w) s1.
 Proof.
   intros s o s1 w W Cw Hq. unfold EvOK; simpl.
   split; [lia|]. split; [exact W|]. split; [discriminate|].
-  split; [intros _; split; [reflexivity|]; split; [assumption|]; right; split; reflexivity|].
+  split; [intros _; split; [reflexivity|]; split; [assumption|reflexivity]|].
   split; [discriminate|]. split; [intros _ C; congruence|].
   intros id cs E. exfalso. eapply Hq; eauto.
 Qed.
 
 Lemma step_new : forall sched s id s' e,
-  Inv s -> step true sched s (OpNew id) = (s', e) -> Inv s' /\ EvOK s (OpNew id) e s'.
+  Inv s -> step true true sched s (OpNew id) = (s', e) -> Inv s' /\ EvOK s (OpNew id) e s'.
 Proof.
   intros sched s id s' e HI H. cbn [step] in H.
   destruct (find_script id (scripts s)) as [sc|] eqn:F.
   { inversion H; subst. split; auto. apply EvOK_skip; [reflexivity | auto | intros; discriminate]. }
-  destruct (get_subprocess true sched s) as [[[s1 r] n] w] eqn:G.
+  destruct (get_subprocess true true sched s) as [[[s1 r] n] w] eqn:G.
   apply get_subprocess_spec in G; auto.
   destruct G as [HI1 [Esc [Esp [W [[A1 [A2 [A3 A4]]] | [A1 [A2 A3]]]]]]]; subst r n.
   - inversion H; subst s' e; clear H. split.
@@ -602,12 +601,12 @@ Lemma set_states_same : forall h, set_states (bump h) (h_states h) = bump h.
 Proof. destruct h; reflexivity. Qed.
 
 Lemma step_syspath : forall sched s s' e,
-  Inv s -> step true sched s OpSysPath = (s', e) -> Inv s' /\ EvOK s OpSysPath e s'.
+  Inv s -> step true true sched s OpSysPath = (s', e) -> Inv s' /\ EvOK s OpSysPath e s'.
 Proof.
   intros sched s s' e HI H. cbn [step] in H.
   destruct (syspath s).
   { inversion H; subst. split; auto. apply EvOK_skip; [reflexivity | auto | intros; discriminate]. }
-  destruct (get_subprocess true sched s) as [[[s1 r] n] w] eqn:G.
+  destruct (get_subprocess true true sched s) as [[[s1 r] n] w] eqn:G.
   apply get_subprocess_spec in G; auto.
   destruct G as [HI1 [Esc [Esp [W [[A1 [A2 [A3 A4]]] | [A1 [A2 A3]]]]]]]; subst r n.
   2:{ inversion H; subst s' e; clear H. split; auto. apply EvOK_getsub_fail; auto. intros; discriminate. }
@@ -639,14 +638,14 @@ Proof.
     + unfold EvOK; simpl. split; [lia|].
       split; [unfold weight in *; simpl in *; rewrite A4 in *; simpl in *; lia|].
       split; [discriminate|].
-      split; [intros _; split; [reflexivity|]; split; [rewrite clean_app, E3, andb_false_r; reflexivity|]; left; split; reflexivity|].
+      split; [intros _; split; [reflexivity|]; split; [rewrite clean_app, E3, andb_false_r; reflexivity|reflexivity]|].
       split; [discriminate|].
       split; [intros _ Cw; rewrite clean_app, E3, andb_false_r in Cw; discriminate|].
       intros; discriminate.
 Qed.
 
 Lemma step_drop : forall sched s id s' e,
-  Inv s -> step true sched s (OpDrop id) = (s', e) -> Inv s' /\ EvOK s (OpDrop id) e s'.
+  Inv s -> step true true sched s (OpDrop id) = (s', e) -> Inv s' /\ EvOK s (OpDrop id) e s'.
 Proof.
   intros sched s id s' e HI H. cbn [step] in H.
   destruct (find_script id (scripts s)) as [sc|] eqn:F.
@@ -698,7 +697,7 @@ Proof.
 Qed.
 
 Lemma step_inv : forall sched s o s' e,
-  Inv s -> step true sched s o = (s', e) -> Inv s' /\ EvOK s o e s'.
+  Inv s -> step true true sched s o = (s', e) -> Inv s' /\ EvOK s o e s'.
 Proof.
   intros sched s o s' e HI H. destruct o.
   - eapply step_new; eauto.
@@ -711,17 +710,17 @@ Qed.
 
 (* ---- whole runs *)
 Definition StepOK (sched : N -> N -> fault) (o : op) (e : ev) : Prop :=
-  exists a b, Inv a /\ step true sched a o = (b, e) /\ Inv b /\ EvOK a o e b.
+  exists a b, Inv a /\ step true true sched a o = (b, e) /\ Inv b /\ EvOK a o e b.
 
 Lemma run_inv : forall sched ops s s' es,
-  Inv s -> run true sched s ops = (s', es) ->
+  Inv s -> run true true sched s ops = (s', es) ->
   Inv s' /\ Forall2 (StepOK sched) ops es /\
   weight s' = (weight s + N.of_nat (total_deaths es))%N.
 Proof.
   intros sched. induction ops as [|o ops IH]; intros s s' es HI H; simpl in H.
   - inversion H; subst. split; auto. split; [constructor|]. simpl. lia.
-  - destruct (step true sched s o) as [s1 e] eqn:S.
-    destruct (run true sched s1 ops) as [s2 es2] eqn:R. inversion H; subst s' es; clear H.
+  - destruct (step true true sched s o) as [s1 e] eqn:S.
+    destruct (run true true sched s1 ops) as [s2 es2] eqn:R. inversion H; subst s' es; clear H.
     destruct (step_inv _ _ _ _ _ HI S) as [HI1 HE].
     destruct (IH _ _ _ HI1 R) as [HI2 [F2 W2]].
     split; auto. split.
@@ -753,10 +752,9 @@ Qed.
 (* ---- T1 *)
 Definition ev_contained (e : ev) : Prop :=
   e_deaths e <= 1 /\
-  (e_deaths e = 1 -> e_stale e = false /\
-     ((e_out e = OExc EInternal /\ e_hand e = false) \/ (e_out e = OExc EInvalidEnv /\ e_hand e = true))) /\
+  (e_deaths e = 1 -> e_stale e = false /\ e_out e = OExc EInternal) /\
   (forall x, e_out e = OExc x -> e_stale e = false ->
-     (e_deaths e = 1 /\ (x = EInternal \/ x = EInvalidEnv)) \/
+     (e_deaths e = 1 /\ x = EInternal) \/
      (e_deaths e = 0 /\ x = EHelper /\ raisedb (e_wire e) = true)) /\
   (e_stale e = true -> e_out e = OExc EInternal /\ e_deaths e = 0).
 
@@ -764,12 +762,12 @@ Lemma EvOK_contained : forall a o e b, EvOK a o e b -> ev_contained e.
 Proof.
   intros a o e b [K1 [K2 [K3 [K4 [K5 [K6 K7]]]]]]. unfold ev_contained.
   split; [auto|]. split.
-  - intros D. destruct (K4 D) as [A1 [A2 [[A3 A4]|[A3 A4]]]]; split; auto.
+  - intros D. destruct (K4 D) as [A1 [A2 A3]]. split; auto.
   - split.
     + intros x Ex St. destruct (e_deaths e) as [|[|n]] eqn:D; [|left|lia].
       * right. destruct (K5 eq_refl St) as [[l El]|[El|[El Er]]]; try congruence.
         split; auto. split; [congruence|apply raised_b; auto].
-      * split; auto. destruct (K4 eq_refl) as [_ [_ [[A3 A4]|[A3 A4]]]]; rewrite A4 in Ex; inversion Ex; auto.
+      * split; auto. destruct (K4 eq_refl) as [_ [_ A4]]. rewrite A4 in Ex. inversion Ex; auto.
     + intros St. destruct (K3 St) as [A1 [A2 A3]]. auto.
 Qed.
 
@@ -779,14 +777,14 @@ Proof.
   intros e [C1 [C2 [C3 C4]]]. unfold fresh_failure.
   destruct (e_out e) as [l|x|] eqn:O.
   - destruct (e_deaths e) as [|[|n]] eqn:D; [auto| |lia].
-    destruct (C2 eq_refl) as [_ [[A _]|[A _]]]; discriminate.
+    destruct (C2 eq_refl) as [_ A]; discriminate.
   - destruct (e_stale e) eqn:St; simpl.
     + destruct (C4 eq_refl) as [_ A]. auto.
     + destruct (C3 x eq_refl eq_refl) as [[A B]|[A [B _]]].
-      * rewrite A. destruct B; subst; reflexivity.
+      * rewrite A. subst. reflexivity.
       * subst. auto.
   - destruct (e_deaths e) as [|[|n]] eqn:D; [auto| |lia].
-    destruct (C2 eq_refl) as [_ [[A _]|[A _]]]; discriminate.
+    destruct (C2 eq_refl) as [_ A]; discriminate.
 Qed.
 
 Lemma count_failures : forall es, Forall ev_contained es ->
@@ -797,7 +795,7 @@ Proof.
 Qed.
 
 Theorem one_internal_error_per_death_L : forall sched ops s es,
-  run true sched init ops = (s, es) ->
+  run true true sched init ops = (s, es) ->
   Forall ev_contained es /\ length (filter fresh_failure es) = total_deaths es.
 Proof.
   intros sched ops s es H. destruct (run_inv _ _ _ _ _ Inv_init H) as [_ [F _]].
@@ -808,7 +806,7 @@ Qed.
 
 (* ---- T5: helpers started = 1 + deaths *)
 Theorem spawn_accounting_L : forall sched ops s es,
-  run true sched init ops = (s, es) ->
+  run true true sched init ops = (s, es) ->
   (h_gen (cur s) + (if h_crashed (cur s) then 1 else 0))%N = (1 + N.of_nat (total_deaths es))%N.
 Proof.
   intros sched ops s es H. destruct (run_inv _ _ _ _ _ Inv_init H) as [_ [_ W]].
@@ -829,7 +827,7 @@ Proof.
 Qed.
 
 Theorem dead_helpers_reaped_L : forall sched ops s es,
-  run true sched init ops = (s, es) ->
+  run true true sched init ops = (s, es) ->
   Forall (fun h => (h_alive h = false -> h_reaped h = true) /\
                    (h_crashed h = true -> h_alive h = false /\ h_reaped h = true /\ h_states h = []) /\
                    (h_crashed h = false -> h_alive h = true /\ h_reaped h = false)) (helpers s) /\
@@ -872,12 +870,12 @@ Proof.
 Qed.
 
 Theorem no_helper_state_leak_L : forall sched ops s es,
-  run true sched init ops = (s, es) ->
+  run true true sched init ops = (s, es) ->
   (h_crashed (cur s) = false ->
      NoDup (h_states (cur s)) /\
      forall x, In x (h_states (cur s)) <->
                In x (h_queue (cur s)) \/ In x (used_ids (h_gen (cur s)) (scripts s))) /\
-  (forall id cs s' e, step true sched s (OpQuery id cs) = (s', e) -> cs <> [] ->
+  (forall id cs s' e, step true true sched s (OpQuery id cs) = (s', e) -> cs <> [] ->
      e_stale e = false -> e_deaths e = 0 -> e_out e <> ONoScript ->
      h_crashed (cur s') = false /\ h_queue (cur s') = [] /\ In id (h_states (cur s')) /\
      forall x, In x (h_states (cur s')) <-> In x (used_ids (h_gen (cur s')) (scripts s'))).
@@ -954,7 +952,7 @@ Qed.
 Definition Quiet (s : st) : Prop := helper_ok (cur s) /\ h_crashed (cur s) = false /\ old s = [].
 
 Lemma step_nf : forall s o s' e,
-  Quiet s -> step true no_faults s o = (s', e) ->
+  Quiet s -> step true true no_faults s o = (s', e) ->
   Quiet s' /\ e_stale e = false /\ clean (e_wire e) = true.
 Proof.
   intros s o s' e [Hok [C Ho]] H. destruct o; cbn [step] in H.
@@ -983,13 +981,13 @@ Proof.
 Qed.
 
 Lemma run_nf : forall ops s s' es,
-  Quiet s -> run true no_faults s ops = (s', es) ->
+  Quiet s -> run true true no_faults s ops = (s', es) ->
   Forall (fun e => e_stale e = false /\ clean (e_wire e) = true) es.
 Proof.
   induction ops as [|o ops IH]; intros s s' es Q H; simpl in H.
   - inversion H; subst. constructor.
-  - destruct (step true no_faults s o) as [s1 e] eqn:S.
-    destruct (run true no_faults s1 ops) as [s2 es2] eqn:R. inversion H; subst.
+  - destruct (step true true no_faults s o) as [s1 e] eqn:S.
+    destruct (run true true no_faults s1 ops) as [s2 es2] eqn:R. inversion H; subst.
     apply step_nf in S; auto. destruct S as [Q1 [A B]]. constructor; eauto.
 Qed.
 
@@ -998,8 +996,8 @@ Proof. unfold Quiet, init; simpl. split; auto. split; simpl; intros; try discrim
 
 (* ---- T2 *)
 Theorem recovery_same_answers_L : forall sched ops s es s0 es0,
-  run true sched init ops = (s, es) ->
-  run true no_faults init ops = (s0, es0) ->
+  run true true sched init ops = (s, es) ->
+  run true true no_faults init ops = (s0, es0) ->
   Forall (fun e => e_out e <> ONoScript) es0 ->
   forall i e e0, nth_error es i = Some e -> nth_error es0 i = Some e0 ->
     e_stale e = false -> clean (e_wire e) = true -> e_out e <> ONoScript ->
@@ -1020,8 +1018,8 @@ Qed.
 
 (* a Script created after a death is bound to a live helper of a later generation *)
 Theorem recovery_new_generation_L : forall sched ops s es id s' e,
-  run true sched init ops = (s, es) ->
-  step true sched s (OpNew id) = (s', e) -> e_out e = OOk [] ->
+  run true true sched init ops = (s, es) ->
+  step true true sched s (OpNew id) = (s', e) -> e_out e = OOk [] ->
   h_crashed (cur s') = false /\ h_alive (cur s') = true /\
   exists sc, find_script id (scripts s') = Some sc /\ s_gen sc = h_gen (cur s') /\ s_used sc = false /\
   (h_crashed (cur s) = true -> h_gen (cur s') = N.succ (h_gen (cur s)) /\ h_states (cur s') = []).
@@ -1029,7 +1027,7 @@ Proof.
   intros sched ops s es id s' e H S O.
   destruct (run_inv _ _ _ _ _ Inv_init H) as [HI _].
   cbn [step] in S. destruct (find_script id (scripts s)) eqn:F; [inversion S; subst; discriminate|].
-  destruct (get_subprocess true sched s) as [[[s1 r] n] w] eqn:G.
+  destruct (get_subprocess true true sched s) as [[[s1 r] n] w] eqn:G.
   pose proof G as G'. apply get_subprocess_spec in G; auto.
   destruct G as [HI1 [Esc [Esp [W [[A1 [A2 [A3 A4]]] | [A1 [A2 A3]]]]]]]; subst r.
   2:{ inversion S; subst. discriminate. }
@@ -1044,53 +1042,32 @@ Proof.
   destruct Sd as [[E1 _] | [[E1 _] | [E1 _]]]; subst h1; simpl in *; auto.
 Qed.
 
-(* ---- the handshake: InvalidPythonEnvironment appears exactly when a replacement helper
-   dies while it is asked for its version *)
-Lemma get_subprocess_quiet_hand : forall sched s s1 r n w,
-  (forall g, sched g 0%N = FNone \/ sched g 0%N = FRaises) ->
-  get_subprocess true sched s = (s1, r, n, w) -> r = None.
-Proof.
-  intros sched s s1 r n w Hs H. unfold get_subprocess in H.
-  destruct (negb (h_crashed (cur s))); [inversion H; auto|].
-  unfold send, fresh_helper in H. simpl in H.
-  destruct (Hs (N.succ (h_gen (cur s)))) as [E|E]; rewrite E in H; simpl in H; inversion H; auto.
-Qed.
-
-Lemma step_hand : forall sched s o s' e,
-  (forall g, sched g 0%N = FNone \/ sched g 0%N = FRaises) ->
-  step true sched s o = (s', e) -> e_hand e = false.
-Proof.
-  intros sched s o s' e Hs H. destruct o; cbn [step] in H.
-  - destruct (find_script id (scripts s)); [inversion H; auto|].
-    destruct (get_subprocess true sched s) as [[[s1 r] n] w] eqn:G.
-    apply get_subprocess_quiet_hand in G; auto. subst r. inversion H; auto.
-  - destruct (find_script id (scripts s)) as [sc|]; [|inversion H; auto].
-    destruct (get_h s (s_gen sc)); [|inversion H; auto].
-    destruct cs; [inversion H; auto|].
-    match type of H with context [run_calls ?a ?b ?c ?d ?e] => destruct (run_calls a b c d e) as [[[h1 o1] n1] w1] end. inversion H; auto.
-  - destruct (find_script id (scripts s)) as [sc|]; [|inversion H; auto].
-    destruct (get_h s (s_gen sc)) as [h|]; [|inversion H; auto].
-    destruct (s_used sc && negb (h_crashed h)); inversion H; auto.
-  - destruct (syspath s); [inversion H; auto|].
-    destruct (get_subprocess true sched s) as [[[s1 r] n] w] eqn:G.
-    apply get_subprocess_quiet_hand in G; auto. subst r.
-    destruct (send true sched (cur s1) KNoId) as [[[h1 r1] n1] w1]. destruct r1; inversion H; auto.
-Qed.
-
-Theorem only_internal_error_without_handshake_death_L : forall sched ops s es,
-  (forall g, sched g 0%N = FNone \/ sched g 0%N = FRaises) ->
-  run true sched init ops = (s, es) ->
+(* ---- a crash never surfaces as anything but InternalError *)
+Theorem only_internal_error_L : forall sched ops s es,
+  run true true sched init ops = (s, es) ->
   Forall (fun e => forall x, e_out e = OExc x -> x = EInternal \/ (x = EHelper /\ raisedb (e_wire e) = true)) es.
 Proof.
-  intros sched ops s es Hs H.
+  intros sched ops s es H.
   destruct (run_inv _ _ _ _ _ Inv_init H) as [_ [F _]].
   eapply Forall2_Forall_r; [exact F|]. intros o e [a [b [_ [S [_ E]]]]] x Ex.
-  pose proof (step_hand _ _ _ _ _ Hs S) as Hh.
   pose proof (EvOK_contained _ _ _ _ E) as [C1 [C2 [C3 C4]]].
   destruct (e_stale e) eqn:St.
   - destruct (C4 eq_refl) as [A _]. left. congruence.
-  - destruct (C3 x Ex eq_refl) as [[D B]|[D [B R]]]; [|right; auto].
-    destruct (C2 D) as [_ [[A1 A2]|[A1 A2]]]; [left; congruence|congruence].
+  - destruct (C3 x Ex eq_refl) as [[D B]|[D [B R]]]; [left; auto|right; auto].
+Qed.
+
+(* ---- the first handshake of an environment: any crash there is InvalidPythonEnvironment,
+   the helper is reaped, and without a crash the environment starts in `init` *)
+Theorem first_handshake_L : forall sched,
+  (sched 1%N 0%N = FNone \/ sched 1%N 0%N = FRaises ->
+     exists h w, start_env true sched = (inl init, h, w)) /\
+  (sched 1%N 0%N <> FNone -> sched 1%N 0%N <> FRaises ->
+     exists h w, start_env true sched = (inr EInvalidEnv, h, w) /\
+                 h_crashed h = true /\ is_zombie h = false /\ h_reaped h = true).
+Proof.
+  intros sched. unfold start_env, send, fresh_helper. simpl. split.
+  - intros [E|E]; rewrite E; simpl; do 2 eexists; reflexivity.
+  - intros N1 N2. destruct (sched 1%N 0%N); try congruence; simpl; do 2 eexists; (split; [reflexivity|auto]).
 Qed.
 
 (* ======== part 7: witnesses ======== *)
@@ -1098,8 +1075,8 @@ Definition wit_ops1 : list op :=
   [OpNew 1%N; OpQuery 1%N [CEcho 5%N]; OpNew 2%N; OpNew 3%N; OpQuery 3%N [CEcho 6%N]].
 Definition wit_sched1 := sched_of [(1%N, 1%N, FDiesAfter); (2%N, 0%N, FDiesAfter)].
 
-Lemma handshake_death_refuted_L :
-  exists sched ops, In (OExc EInvalidEnv) (map e_out (snd (run true sched init ops))).
+Lemma handshake_death_prefix_refuted_L :
+  exists sched ops, In (OExc EInvalidEnv) (map e_out (snd (run false true sched init ops))).
 Proof. exists wit_sched1, wit_ops1. vm_compute. auto. Qed.
 
 Definition wit_ops2 : list op :=
@@ -1108,6 +1085,6 @@ Definition wit_ops2 : list op :=
 Definition wit_sched2 := sched_of [(1%N, 1%N, FTrunc)].
 
 Lemma truncated_reply_prefix_refuted_L :
-  exists sched ops, let es := snd (run false sched init ops) in
+  exists sched ops, let es := snd (run true false sched init ops) in
     total_deaths es = 1 /\ length (filter fresh_failure es) = 2 /\ In (OExc EUnpickling) (map e_out es).
 Proof. exists wit_sched2, wit_ops2. vm_compute. auto. Qed.
